@@ -9,6 +9,7 @@ import (
 	"math/rand"
 	"sort"
 	"time"
+	"tsim/genfault"
 
 	"github.com/ethereum/go-ethereum/common"
 	ethtypes "github.com/ethereum/go-ethereum/core/types"
@@ -489,6 +490,7 @@ func (w *bscWorld) apply(op kernel.Op) {
 		if w.host.InBlock {
 			return
 		}
+		genfault.Run(w.rec, w.host, int64(w.host.Height)+op.Arg(0))
 		for _, is := range w.host.ModuleRoundTrip() {
 			w.rec.Violate("C13", "roundtrip", "bsc:"+is.Key, "bsc world: %s", is.Detail)
 		}
